@@ -10,6 +10,9 @@
 //!   E         start destroy_database on a thread; it parks right before it removes the LOCK file
 //!   F         let it go on; it parks right before it removes the database directory
 //!   H         let it finish and report its result
+//!   Z<h>      close handle <h> while its background thread is parked inside the creation of a
+//!             table file (a flush is provoked first); every open attempted before the close has
+//!             returned must be refused
 use std::collections::HashMap;
 use std::sync::{Arc, Barrier};
 
@@ -30,6 +33,8 @@ struct GatedFs {
     inner: TmpFileSystem,
     st: Mutex<(u8, u8)>, // (gate the destroyer is parked at, gates released so far)
     cv: Condvar,
+    rdb: Mutex<(bool, bool, bool)>, // table creation gate: (armed, a thread is parked, released)
+    rdb_cv: Condvar,
 }
 
 impl GatedFs {
@@ -90,6 +95,18 @@ impl FileSystem for GatedFs {
         self.inner.rename(from, to)
     }
     fn create_file(&self, path: &Path, append: bool) -> io::Result<Box<dyn RandomAccessFile>> {
+        if path.extension().map(|e| e == "rdb").unwrap_or(false) {
+            let mut g = self.rdb.lock().unwrap();
+            if g.0 && !g.1 {
+                g.1 = true;
+                self.rdb_cv.notify_all();
+                let deadline = Instant::now() + Duration::from_secs(30);
+                while !g.2 && Instant::now() < deadline {
+                    g = self.rdb_cv.wait_timeout(g, Duration::from_millis(50)).unwrap().0;
+                }
+                g.0 = false;
+            }
+        }
         self.inner.create_file(path, append)
     }
     fn remove_file(&self, path: &Path) -> io::Result<()> {
@@ -121,6 +138,7 @@ fn options(fs: &Arc<dyn FileSystem>) -> DbOptions {
     o.filesystem_provider = Arc::clone(fs);
     o.db_path = "lockdb".to_string();
     o.create_if_missing = true;
+    o.max_memtable_size = 2048;
     o
 }
 
@@ -131,6 +149,8 @@ pub fn run_lock(line: &str) -> String {
         inner: TmpFileSystem::new(None),
         st: Mutex::new((0, 0)),
         cv: Condvar::new(),
+        rdb: Mutex::new((false, false, false)),
+        rdb_cv: Condvar::new(),
     });
     let fs: Arc<dyn FileSystem> = Arc::clone(&gated) as Arc<dyn FileSystem>;
     let mut destroyer: Option<std::thread::JoinHandle<bool>> = None;
@@ -237,6 +257,55 @@ pub fn run_lock(line: &str) -> String {
                 ));
                 winners.clear();
             }
+            b'Z' => match handles.remove(body) {
+                None => out.push("nohandle".to_string()),
+                Some(db) => {
+                    *gated.rdb.lock().unwrap() = (true, false, false);
+                    let mut wrote = true;
+                    for i in 0..4u8 {
+                        if db.put(WriteOptions::default(), vec![0xfd, i], vec![i; 1500]).is_err() {
+                            wrote = false;
+                        }
+                    }
+                    // wait until the background thread is parked in the creation of the table
+                    let deadline = Instant::now() + Duration::from_secs(10);
+                    while !gated.rdb.lock().unwrap().1 && Instant::now() < deadline {
+                        std::thread::sleep(Duration::from_micros(200));
+                    }
+                    let parked = gated.rdb.lock().unwrap().1;
+                    let closer = std::thread::Builder::new()
+                        .name("case-lock-closer".to_string())
+                        .spawn(move || drop(db))
+                        .unwrap();
+                    // every open before the close has returned must be refused
+                    let mut admitted = false;
+                    let until = Instant::now() + Duration::from_millis(300);
+                    while Instant::now() < until && !closer.is_finished() {
+                        if let Ok(db2) = DB::open(options(&fs)) {
+                            admitted = !closer.is_finished();
+                            drop(db2);
+                            break;
+                        }
+                        std::thread::sleep(Duration::from_millis(5));
+                    }
+                    {
+                        let mut g = gated.rdb.lock().unwrap();
+                        g.2 = true;
+                        gated.rdb_cv.notify_all();
+                    }
+                    let _ = closer.join();
+                    *gated.rdb.lock().unwrap() = (false, false, false);
+                    out.push(if !wrote {
+                        "write-failed".to_string()
+                    } else if !parked {
+                        "notparked".to_string()
+                    } else if admitted {
+                        "admitted".to_string()
+                    } else {
+                        "excluded".to_string()
+                    });
+                }
+            },
             b'E' => {
                 if destroyer.is_some() {
                     out.push("none".to_string());
